@@ -59,7 +59,8 @@ def extractor_broken(detail):
 def build_atomics(cfg, variant):
     san = "asan-nosio" if variant == "sim" else "asan"      # DESIGN C04 "Not proved": signed wrap in (*atomic)++
     return pv.build_harness("atomics-" + variant, cfg, ["atomics.c"], repo_files=ATOMIC_SRC[variant] + BASE, san=san,
-                            extra=['-DPV_VARIANT="%s"' % variant], tag="atomics-" + variant)
+                            extra=['-DPV_VARIANT="%s"' % variant], tag="atomics-" + variant,
+                            link=["-Wl,--wrap=pthread_mutex_lock", "-Wl,--wrap=pthread_mutex_unlock"])
 
 
 LOCK_KINDS = {"c11": (1, 1), "sync": (1, 1), "sim": (1, 0), "posix": (2, 0), "posix-script": (3, 0)}
@@ -88,8 +89,11 @@ def build_stress(cfg, variant, force_plain=False):
 
 
 def run_stress(exe, mode, args, timeout):
+    # the workers stop at a deadline well inside the watchdog (expected values follow the completed iterations):
+    # a loaded machine shortens the run instead of tripping the watchdog
     rc, out, err = pv.run_proc([exe, mode] + [str(a) for a in args], "", timeout=timeout,
-                               env={"TSAN_OPTIONS": "halt_on_error=0 report_signal_unsafe=0 exitcode=66"})
+                               env={"TSAN_OPTIONS": "halt_on_error=0 report_signal_unsafe=0 exitcode=66",
+                                    "STRESS_MAX_MS": str(int(min(20, max(2, timeout / 4.0)) * 1000))})
     races = []
     for m in re.finditer(r"WARNING: ThreadSanitizer: ([^\n]*)\n((?:.*\n){0,12})", err):
         frames = re.findall(r"#0 (\S+) (\S+?):(\d+)", m.group(2))
@@ -103,7 +107,20 @@ def judge_stress(mode, out):
     if mode in ("counter", "mcounter"):
         if len(nums) != 2 or nums[0] != nums[1]:
             return "lost update inside the critical section: " + out
-    elif mode == "ticket":
+    elif mode == "hcounter":
+        if len(nums) != 3 or nums[0] != nums[1]:
+            return "lost update inside the critical section: " + out
+        if nums[2] != 0:
+            return "two threads inside the critical section at once (shadow holder count > 1): " + out
+    elif mode in ("twolocks", "mtwolocks"):
+        if len(nums) != 4 or nums[0] != nums[2] or nums[1] != nums[3]:
+            return "lost update under one of two independent locks: " + out
+    elif mode == "mix":
+        if len(nums) != 4 or nums[0] != nums[1]:
+            return "mixed read-modify-write operations on one int word lost an update: " + out
+        if nums[2] != nums[3]:
+            return "mixed read-modify-write operations on one pointer-sized word lost an update: " + out
+    elif mode in ("ticket", "pticket"):
         if len(nums) != 3 or nums[0] != 0 or nums[1] != nums[2]:
             return "duplicate / lost tickets: " + out
     elif mode == "dectest":
@@ -127,12 +144,14 @@ def stress_campaign(chk, cfg, prop, plan, budget_s, label):
     found = False
     runs = []
     hit = set()
-    for variant, mode, args in plan:
+    for entry in plan:
+        variant, mode, args = entry[:3]
+        plain = len(entry) > 3 and entry[3] == "plain"   # gcc -O2 as the library is built (clang may fold a defect away)
         if (variant, mode) in hit:
             continue                                     # one concrete failing run per back-end and mode is enough
         try:
             # the store-buffering litmus needs the real hardware reordering: uninstrumented -O2 build
-            exe, tsan = build_stress(cfg, variant, force_plain=(mode == "sb"))
+            exe, tsan = build_stress(cfg, variant, force_plain=(mode == "sb" or plain))
         except pv.BuildError as e:
             runs.append({"variant": variant, "mode": mode, "result": "build failed"})
             chk.violation(str(e), "%s: stress build of the %s back-end failed" % (prop, variant), no_input=True, suffix="txt")
